@@ -971,6 +971,10 @@ caption_command(vbi_decoder *vbi, struct caption *cc,
 			}
 
 			set_cursor(ch, 1, ch->row1 + ch->roll - 1);
+		} else if (ch->mode == MODE_TEXT) {
+			/* 47 CFR 15.119 (e)(1), EIA 608-B Section 7.4:
+			   The row is ignored in text mode. */
+			set_cursor(ch, 1, ch->row);
 		} else
 			set_cursor(ch, 1, row);
 
